@@ -63,14 +63,60 @@ def _keywords(d):
     return _KW[d]
 
 
+_CORPUS = None
+
+
+def corpus():
+    """Seed corpus from the repository's own tests: identity fixtures (base dialect) and the strings passed to validate_identity /
+    validate_all in tests/dialects/test_<dialect>.py (read as that dialect). Far wider than the core grammar."""
+    global _CORPUS
+    if _CORPUS is None:
+        import glob
+        import re
+
+        out = []
+        root = os.path.join(core.REPO, "tests")
+        try:
+            for line in open(os.path.join(root, "fixtures", "identity.sql")):
+                line = line.strip()
+                if line and not line.startswith("--"):
+                    out.append(("", line))
+        except OSError:
+            pass
+        names = set(sqlcore.dialect_names())
+        for path in sorted(glob.glob(os.path.join(root, "dialects", "test_*.py"))):
+            d = os.path.basename(path)[5:-3]
+            if d not in names:
+                continue
+            try:
+                src = open(path).read()
+            except OSError:
+                continue
+            for m in re.finditer(r'validate_(?:identity|all)\(\s*"((?:[^"\\\n]|\\.)+)"', src):
+                text = m.group(1)
+                if "\\" not in text and len(text) < 400:
+                    out.append((d, text))
+        _CORPUS = out
+    return _CORPUS
+
+
 @st.composite
 def cases(draw, depth):
-    kind = draw(st.sampled_from(("V", "M", "M", "M", "K", "U", "S")))
+    kind = draw(st.sampled_from(("V", "M", "M", "M", "K", "U", "S", "F", "F")))
+    if kind == "F" and not corpus():
+        kind = "M"
     d = draw(st.sampled_from(sqlcore.dialect_names()))
     other = draw(st.sampled_from(sqlcore.dialect_names()))
     level = draw(st.sampled_from(LEVELS))
     case = {"kind": kind, "dialect": d, "other": other, "level": level, "count_work": True}
-    if kind in ("V", "M", "S"):
+    if kind == "F":
+        cd, text = corpus()[draw(st.integers(0, len(corpus()) - 1))]
+        case["sql"] = text
+        case["dialect"] = cd if draw(st.integers(0, 3)) else d
+        case["other"] = draw(st.sampled_from(["bigquery", "duckdb", "tsql", "snowflake", "spark", "postgres", "mysql", "clickhouse", "oracle"] + [other]))
+        n = draw(st.integers(1, 2))  # the unmutated statements are swept exhaustively by the "sweep" shards
+        case["muts"] = [{"op": draw(st.sampled_from(("delete", "insert", "swap", "dup", "replace", "truncate"))), "i": draw(st.integers(0, 200)), "j": draw(st.integers(0, 200)), "tok": draw(st.sampled_from(PUNCT + ["SELECT", "FROM", "ON", "AS", "NOT", "NULL", "FOO", "x"]))} for _ in range(n)]
+    elif kind in ("V", "M", "S"):
         case["sql"] = draw(sqlcore.statement(depth))["sql"]
         if kind == "M":
             n = draw(st.integers(1, 3))
@@ -118,8 +164,8 @@ def _apply_muts(sql, d, muts):
 
 def _text(case):
     sql = case["sql"]
-    if case["kind"] == "M":
-        return _apply_muts(sql, case["dialect"], case["muts"])
+    if case["kind"] in ("M", "F"):
+        return _apply_muts(sql, case["dialect"], case["muts"]) if case.get("muts") else sql
     if case["kind"] == "S":
         frag = _apply_muts(sql, case["dialect"], case["muts"])
         body = " UNION ALL ".join([frag] * case["repeat"])
@@ -148,7 +194,7 @@ def _complete(tree):
         return False
 
 
-def run_one(text, d, other, level, count_work):
+def run_one(text, d, other, level, count_work, all_targets=False):
     """Returns (fails, info). fails: list of (bucket, detail)."""
     import sqlglot
     from sqlglot import ErrorLevel
@@ -199,7 +245,9 @@ def run_one(text, d, other, level, count_work):
             continue
         complete = _complete(tree)
         info["complete" if complete else "incomplete"] += 1
-        for target in dict.fromkeys((d, other)):
+        # valid, unmutated statements are generated into EVERY dialect (dialect-specific generator helpers are where a
+        # missing None-check hides); everything else into its own and one drawn dialect
+        for target in (sqlcore.dialect_names() if all_targets and info["valid"] else dict.fromkeys((d, other))):
             counter2 = _Counter(A * n * n + B) if count_work else None
             try:
                 if counter2:
@@ -215,7 +263,13 @@ def run_one(text, d, other, level, count_work):
             except WorkExceeded:
                 fails.append(("work-bound-exceeded|generate", f"{d or 'base'}->{target or 'base'}: {text[:300]!r}"))
             except Exception as e:
-                phase = "generate-valid" if info["valid"] else ("generate-invalid-complete" if complete else "generate-invalid-incomplete")
+                # LENIENT: a RAISE-level parse accepted MUTATED text but the tree it returned misses required children
+                # (function builders are not validated, e.g. FORMAT_TIME(, x) in BigQuery) -- same open-ended family of
+                # generator call sites as trees of rejected input, catalogued as its own finding
+                if info["valid"]:
+                    phase = "generate-valid" if complete or all_targets else "generate-lenient-incomplete"
+                else:
+                    phase = "generate-invalid-complete" if complete else "generate-invalid-incomplete"
                 fails.append((f"{phase}|{type(e).__name__}|{_site(e)}", f"{d or 'base'}->{target or 'base'} {level}: {text[:400]!r}: {type(e).__name__}: {str(e)[:200]}"))
     return fails, info
 
@@ -223,15 +277,24 @@ def run_one(text, d, other, level, count_work):
 def check_case(case, res=None):
     logging.getLogger("sqlglot").setLevel(logging.CRITICAL)
     text = _text(case)
-    fails, info = run_one(text, case["dialect"], case["other"], case["level"], case.get("count_work", False))
+    unmutated = case["kind"] == "V" or (case["kind"] == "F" and not case.get("muts"))
+    fails, info = run_one(text, case["dialect"], case["other"], case["level"], case.get("count_work", False), all_targets=unmutated)
     out = []
     for b, det in fails:
-        strict = info["valid"] or b.startswith("work-bound")
-        out.append((("strict|" if strict else "garbage|") + b, det))
+        # STRICT (one hit is a violation): the work bound, and anything on UNMUTATED statements (grammar or fixture corpus).
+        # Mutated text that a RAISE-level parse happens to accept is still garbage text: 'accepted|' buckets follow the
+        # frequency floor like 'garbage|' ones (campaigns over the fixture corpus showed a non-saturating tail of such sites)
+        if b.startswith("work-bound") or (info["valid"] and unmutated):
+            prefix = "strict|"
+        elif info["valid"] and not b.startswith("generate-lenient-"):
+            prefix = "accepted|"
+        else:
+            prefix = "garbage|"
+        out.append((prefix + b, det))
     if res is not None:
         if info.get("recursion"):
             res.out_of_domain["recursion-limit"] += 1
-        nontrivial = info["raised"] or info["incomplete"] > 0 if case["kind"] in ("M", "K", "U") else (info["complete"] > 0)
+        nontrivial = info["raised"] or info["incomplete"] > 0 if case["kind"] in ("M", "K", "U") or (case["kind"] == "F" and case.get("muts")) else (info["complete"] > 0)
         res.case(core.h8([text, case["dialect"], case["level"]]), bool(nontrivial), [f"class:{case['kind']}", f"level:{case['level']}"] + (["valid-input"] if info["valid"] else ["invalid-input"]) + (["raised"] if info["raised"] else []) + (["incomplete-tree"] if info["incomplete"] else []) + (["work-counted"] if case.get("count_work") else []))
         if info["calls"]:
             ratio = info["calls"] / max(len(text), 1)
@@ -243,14 +306,39 @@ def check_case(case, res=None):
 
 def frequency_floor(bucket: str) -> int:
     """Garbage-text call sites need >=3 distinct inputs in one run; everything strict needs one."""
-    return 3 if bucket.startswith("garbage|") else 1
+    return 3 if bucket.startswith(("garbage|", "accepted|")) else 1
+
+
+SWEEP_PARTS = 8
 
 
 def plan(tier):
-    return [{"n": 1500, "depth": 3}] * 16 if tier == "quick" else [{"n": 40000, "depth": 3}] * 40 + [{"n": 8000, "depth": 5}] * 8
+    sweep = [{"kind": "sweep", "part": i} for i in range(SWEEP_PARTS)]
+    if tier == "quick":
+        return sweep + [{"n": 1500, "depth": 3}] * 16
+    return sweep + [{"n": 40000, "depth": 3}] * 40 + [{"n": 8000, "depth": 5}] * 8
+
+
+def sweep(part, res, only_bucket=None):
+    """EXHAUSTIVE stream: every statement of the repository's fixture corpus, read as its own dialect at RAISE and IGNORE,
+    generated for every dialect (finite: |corpus| x 2 x |dialects|; work is not counted here, the random streams do that)."""
+    n = 0
+    for i, (d, text) in enumerate(corpus()):
+        if i % SWEEP_PARTS != part:
+            continue
+        for level in ("RAISE", "IGNORE"):
+            case = {"kind": "F", "dialect": d, "other": "", "level": level, "count_work": False, "sql": text, "muts": []}
+            for b, det in check_case(case, res):
+                if only_bucket is None or b == only_bucket:
+                    res.fail(b, case, det)
+            n += 1
+    res.extra["corpus_statements_swept"] = res.extra.get("corpus_statements_swept", 0) + n // 2
 
 
 def run_shard(spec, seed, res, only_bucket=None):
+    if spec.get("kind") == "sweep":
+        sweep(spec["part"], res, only_bucket)
+        return None
     return core.drive(cases(spec["depth"]), check_case, seed, spec["n"], res, only_bucket)
 
 
@@ -262,4 +350,4 @@ def replay(case):
     return check_case(case, None)
 
 
-MIN_CLASSES = {"quick": {"class:V": 1500, "class:M": 5000, "class:K": 1500, "class:U": 700, "class:S": 1500, "raised": 4000, "incomplete-tree": 300, "work-counted": 4000}}
+MIN_CLASSES = {"quick": {"class:V": 1500, "class:M": 5000, "class:K": 1500, "class:U": 700, "class:S": 1500, "class:F": 2500, "raised": 4000, "incomplete-tree": 300, "work-counted": 4000}}
